@@ -49,7 +49,17 @@ VARIANTS = [
     V("c13_no_update", "M", G, f"{F}.transition_fn.conditional_log_prob_fn",
       *replace_stmt("model.update('_model_log_prob')", None),
       note="log-prob not refreshed after the assignment", expect_rule="C13.R2"),
+    V("c13_outcomes_cast", "M", "liesel/model/goose.py", "finite_discrete_gibbs_kernel",
+      *replace_stmt("outcomes = jnp.asarray(outcomes)",
+                    "outcomes = jnp.asarray(outcomes, dtype=jnp.result_type(model.vars[name].value))"),
+      note="fractional outcomes truncated for an integer-valued variable", expect_rule="C13.R2"),
+    V("c13_bernoulli_support", "M", "liesel/model/goose.py", "finite_discrete_gibbs_kernel",
+      *replace_expr("jnp.array([0, 1], dtype=dist.dtype)", "jnp.array([1], dtype=dist.dtype)"),
+      note="Bernoulli support misses 0", expect_rule="C13.R2"),
     # ---- twins
+    V("c13_t_outcomes_array", "T", "liesel/model/goose.py", "finite_discrete_gibbs_kernel",
+      *replace_stmt("outcomes = jnp.asarray(outcomes)", "outcomes = jnp.array(outcomes)"),
+      note="array instead of asarray"),
     V("c13_t_names", "T", D, T, *replace_stmt("a_gibbs = jnp.squeeze(a_prior + 0.5 * rank)",
                                               "shape = jnp.squeeze(a_prior + rank / 2)\na_gibbs = shape"),
       note="intermediate names, rank / 2"),
